@@ -21,6 +21,7 @@ mod cmd_valeval;
 mod cmd_schema_syn;
 mod cmd_ext;
 mod cmd_level;
+mod cmd_manifest;
 
 /// Command families.  To add one: create src/cmd_xxx.rs with
 /// `pub fn dispatch(cmd: &str, v: &J) -> Option<Result<J, String>>`, add `mod cmd_xxx;` above
@@ -41,6 +42,7 @@ const FAMILIES: &[fn(&str, &J) -> Option<Result<J, String>>] = &[
     cmd_schema_syn::dispatch,
     cmd_ext::dispatch,
     cmd_level::dispatch,
+    cmd_manifest::dispatch,
 ];
 
 fn dispatch(cmd: &str, v: &J) -> Result<J, String> {
